@@ -62,10 +62,7 @@ var vpreds = []vpred{
 func c14(r *R) {
 	keys := []string{"a", "b", "c", "d"}
 	vals := []int{0, 1, 2}
-	maxE := 3
-	if thorough || !seams {
-		maxE = 4
-	}
+	maxE := 4
 	var maps []map[string]int
 	enum.Maps(keys, vals, maxE, func(m map[string]int) { maps = append(maps, mcopy(m)) })
 	sort.SliceStable(maps, func(i, j int) bool { return len(maps[i]) < len(maps[j]) })
